@@ -479,6 +479,14 @@ impl<'a> Searcher<'a> {
                                         }
                                     }
                                 }
+                                // fractional values (e.g. AVG) are compared numerically as well
+                                if let (Some(a), Some(b)) = (a.get(*i), b.get(*i)) {
+                                    if let (Ok(a), Ok(b)) = (a.1.parse::<f64>(), b.1.parse::<f64>()) {
+                                        if let Some(ord) = a.partial_cmp(&b) {
+                                            return if directions[idx] { ord } else { ord.reverse() };
+                                        }
+                                    }
+                                }
                                 if directions[idx] { 
                                     a.get(*i).unwrap().1.cmp(&b.get(*i).unwrap().1) 
                                 } else { 
